@@ -98,7 +98,7 @@ func genPacket(t *rapid.T) ([]byte, string) {
 	case 5:
 		return pub("emitter/keygen/", fmt.Sprintf(`{"key":"%s","channel":"a/","type":"rwlspex","ttl":%s}`, keyMaster, x("ttl")), 1, false), "keygen-ttl"
 	case 6:
-		return pub("emitter/history/", fmt.Sprintf(`{"channel":"%s/a/b/?last=%s","startFromID":"%s"}`, keyAll, x("last"), rapid.SampledFrom([]string{"", "AAAA", strings.Repeat("QUJD", 3000)}).Draw(t, "sfid")), 1, false), "history"
+		return pub("emitter/history/", fmt.Sprintf(`{"channel":"%s/a/b/?last=%s","startFromID":"%s"}`, keyAll, x("last"), rapid.SampledFrom([]string{"", "AAAA", "AA==", "AAAAAAA=", "AAAAAAAAAAAAAAAAAAAAAAAAAAA=", strings.Repeat("QUJD", 3000)}).Draw(t, "sfid")), 1, false), "history"
 	case 7:
 		return pub("emitter/link/", fmt.Sprintf(`{"name":"%s","key":"%s","channel":"%s","subscribe":true}`, rapid.SampledFrom([]string{"l1", "zz", "\\u0000", ""}).Draw(t, "ln"), keyAll,
 			rapid.SampledFrom([]string{"a/", strings.Repeat("a/", 20000), "", "a/+/"}).Draw(t, "lch")), 1, false), "link"
@@ -380,7 +380,7 @@ func genCluster(hostile bool) func(t *rapid.T) Case {
 			}
 			w.uvarint(uint64(rapid.IntRange(0, 100).Draw(t, "from")))  // zig-zag varints of small values
 			w.uvarint(uint64(rapid.IntRange(0, 100).Draw(t, "until"))) //
-			w.str(rnd("startid", rapid.SampledFrom([]int{0, 0, 8, 28}).Draw(t, "sid")))
+			w.str(rnd("startid", rapid.SampledFrom([]int{0, 0, 8, 28, 1, 3, 7, 15, 19, 20}).Draw(t, "sid")))
 			lim := uint64(rapid.IntRange(0, 50).Draw(t, "limit")) * 2
 			if hostile {
 				lim = rapid.SampledFrom([]uint64{0, 1, 2, 1 << 31, 1 << 62, 1<<64 - 1}).Draw(t, "hlimit")
